@@ -40,9 +40,12 @@ type udpOp struct {
 	sport   int
 }
 type udpCaseSpec struct {
-	Cfg      []cfgKey `json:"cfg"`
-	Validate bool     `json:"validate"`
-	Ops      []udpOp  `json:"ops"`
+	Cfg       []cfgKey `json:"cfg"`
+	Validate  bool     `json:"validate"`
+	Ops       []udpOp  `json:"ops"`
+	coll      string   // Corr.Coll case term of the run (call log on the real collectors + gathered counters)
+	collN     int
+	collDiffs []string
 }
 
 type udpEv struct {
@@ -57,6 +60,7 @@ type recUDP struct {
 	mu    sync.Mutex
 	evs   []udpEv
 	next  int
+	tee   *promTee
 	storm bool // more reports than any case can account for: recording stopped (the server is looping)
 }
 
@@ -73,8 +77,9 @@ func (r *recUDP) full() bool {
 }
 
 type recUDPConn struct {
-	r  *recUDP
-	id int
+	r   *recUDP
+	id  int
+	tee *teeUDPConn
 }
 
 func (r *recUDP) AddUDPNatEntry(clientAddr net.Addr, accessKey string) service.UDPConnMetrics {
@@ -83,13 +88,20 @@ func (r *recUDP) AddUDPNatEntry(clientAddr net.Addr, accessKey string) service.U
 	id := r.next
 	r.next++
 	r.evs = append(r.evs, udpEv{Kind: "add", Assoc: id, Client: clientAddr.String(), Key: accessKey})
-	return &recUDPConn{r, id}
+	c := &recUDPConn{r: r, id: id}
+	if r.tee != nil {
+		c.tee = r.tee.addUDP(clientAddr, accessKey)
+	}
+	return c
 }
 func (c *recUDPConn) AddPacketFromClient(status string, a, b int64) {
 	c.r.mu.Lock()
 	defer c.r.mu.Unlock()
 	if c.r.full() {
 		return
+	}
+	if c.tee != nil {
+		c.tee.fromClient(status, a, b)
 	}
 	c.r.evs = append(c.r.evs, udpEv{Kind: "pktclient", Assoc: c.id, Status: status, A: a, B: b})
 }
@@ -99,11 +111,17 @@ func (c *recUDPConn) AddPacketFromTarget(status string, a, b int64) {
 	if c.r.full() {
 		return
 	}
+	if c.tee != nil {
+		c.tee.fromTarget(status, a, b)
+	}
 	c.r.evs = append(c.r.evs, udpEv{Kind: "pkttarget", Assoc: c.id, Status: status, A: a, B: b})
 }
 func (c *recUDPConn) RemoveNatEntry() {
 	c.r.mu.Lock()
 	defer c.r.mu.Unlock()
+	if c.tee != nil {
+		c.tee.remove()
+	}
 	c.r.evs = append(c.r.evs, udpEv{Kind: "remove", Assoc: c.id})
 }
 
@@ -168,7 +186,7 @@ func sealDgram(key *shadowsocks.EncryptionKey, salt, plaintext []byte) []byte {
 func runUDPCase(cs *udpCaseSpec) (obs []udpOpObs, tports []int, fatal string, shutdownRemoved int) {
 	cl := service.NewCipherList()
 	cl.Update(makeList(cs.Cfg))
-	rec := &recUDP{}
+	rec := &recUDP{tee: newPromTee()}
 	h := service.NewPacketHandler(udpNatTimeout, cl, rec, rec)
 	if !cs.Validate {
 		h.SetTargetIPValidator(func(net.IP) error { return nil })
@@ -600,6 +618,12 @@ func runUDPCase(cs *udpCaseSpec) (obs []udpOpObs, tports []int, fatal string, sh
 		fatal = fmt.Sprintf("report storm: the handler issued more than %d metric reports for %d client operations (datagrams are being relayed that no client or target of the case sent)", recUDPMax, len(cs.Ops))
 	}
 	rec.mu.Unlock()
+	if rec.tee != nil {
+		if term, n, err := rec.tee.term(); err == nil {
+			cs.coll, cs.collN = term, n
+			cs.collDiffs = rec.tee.diffs
+		}
+	}
 	return obs, tports, fatal, shutdownRemoved
 }
 
